@@ -84,6 +84,11 @@ FAMILIES = {
         'S': ('right', ('expect', ('ref', 'A')),
               ('right', ('expectnot', ('seq', [('ref', 'A'), ('str', '!')])), ('ref', 'A'))),
         'A': ('alt', [('seq', [('str', '('), ('ref', 'S'), ('str', ')')]), ('str', 'x')])}),
+    # a rule referred to with an empty argument list, A(), next to plain references to it
+    'empty-call': ('S', {
+        'start': ('ref', 'S'),
+        'S': ('right', ('expect', ('call', 'A', [])), ('alt', [('seq', [('call', 'A', []), ('str', '!')]), ('ref', 'A')])),
+        'A': ('alt', [('seq', [('str', '('), ('ref', 'S'), ('str', ')')]), ('str', 'x')])}),
     'opt-star': ('L', {
         'start': ('ref', 'L'),
         'L': ('alt', [('seq', [('ref', 'I'), ('str', ';')]), ('seq', [('ref', 'I'), ('str', ',')]), ('ref', 'I')]),
